@@ -88,6 +88,7 @@ class SimQueue:
         self.qid = w.n_queues
         w.n_queues += 1
         w.queues.append(self)
+        w.round_start = len(w.procs)  # processes started from now on belong to this queue's round
         self.maxsize = maxsize if maxsize and maxsize > 0 else 0
         self.sem_used = 0
         self.frames = deque()
